@@ -127,3 +127,12 @@ EQUIVALENCES = {
         },
     },
 }
+
+
+# Formulas that are not monomials, written in the normal form of engine/algebra.py as nested tuples:
+#   ("prod", coefficient, {atom: exponent}, [(sum, exponent), ...])   with   sum = [prod, prod, ...]
+# Lorentz factor  gamma = 1/sqrt(1 - v^2/c^2)  and its inverse  v = c*sqrt(1 - 1/gamma^2)  (special relativity).
+NON_MONOMIAL = {
+    ("lorentz", "velocity", "dimensionless"): ("prod", 1.0, {}, [([("prod", 1.0, {}, []), ("prod", -1.0, {"x": 2, "c": -2}, [])], "-1/2")]),
+    ("lorentz", "dimensionless", "velocity"): ("prod", 1.0, {"c": 1}, [([("prod", 1.0, {}, []), ("prod", -1.0, {"x": -2}, [])], "1/2")]),
+}
